@@ -7,7 +7,15 @@ R1  await-free check-then-register windows and mutate-then-notify;
 R2  waiter hygiene (registration cleared on every exit incl. cancellation,
     notification clears the slot);
 R3  FIFO polarity, the capacity gate in front of the append, the disconnect
-    event going through the same gate and ending the pump;
+    event enqueued at the same end and ending the pump.  The gate is decided per
+    event in hand (ordinary message: flag down; disconnect marker: flag up):
+    a message is appended only through an edge that cannot be taken while
+    ``len(queue) >= capacity``.  The marker is not a message: on an UNBOUNDED
+    deque it may skip the wait for room (lossless, order kept).  A deque built
+    with ``maxlen`` = the capacity drops its oldest element on an append when
+    full, so there the marker needs the same proof (seeded s4-c18-1; a bounded
+    deque alone, with every append gated, never drops and is accepted; any other
+    maxlen expression is an unknown idiom);
 R4  lifecycle of the pump task (close -> stop first, stop cancels/awaits/clears,
     start idempotent and skipped for capacity 0, WebSocket bypass for 0).
 R5  every framework path that ends a session passes a completed ``WebSocket.close()`` - the only caller of
@@ -18,7 +26,7 @@ R6  ``receive()`` concludes "pump ended, no more messages" only inside the await
 ``disconnect_flag_prompt`` (flag raised before the pump's next suspension) is registered under C17 as its R6.
 
 Roles are derived, not named: the queue is the attribute initialised with
-``collections.deque()``, waiters are the attributes that receive the result of
+``collections.deque([[], maxlen])``, waiters are the attributes that receive the result of
 ``create_future()``, the task is the attribute that receives ``create_task()``,
 the capacity is the attribute compared with ``len(queue)``.
 """
@@ -85,9 +93,22 @@ class BRModel:
         self.queue = None
         for attr, val, _n in _stores(self.init):
             if isinstance(val, ast.Call) and p.resolve_expr(self.init.module, val.func, self.init) == 'collections.deque':
-                if val.args or val.keywords:
-                    raise UnknownIdiom('%s: deque constructed with arguments (%s); a maxlen would silently drop messages' % (self.init.qual, short(val)))
+                # deque([iterable[, maxlen]]): an initial content is not modelled; a maxlen makes the CONTAINER drop the oldest
+                # element when something is appended to a full queue - classified below, decided by R3
+                content = val.args[0] if val.args else None
+                bound = val.args[1] if len(val.args) > 1 else None
+                for kw in val.keywords:
+                    if kw.arg == 'maxlen' and bound is None:
+                        bound = kw.value
+                    elif kw.arg == 'iterable' and content is None:
+                        content = kw.value
+                    else:
+                        raise UnknownIdiom('%s: deque constructed as %s' % (self.init.qual, short(val)))
+                if len(val.args) > 2 or (content is not None and not (isinstance(content, (ast.List, ast.Tuple)) and not content.elts)):
+                    raise UnknownIdiom('%s: deque constructed with an initial content (%s)' % (self.init.qual, short(val)))
                 self.queue = attr
+                self.q_ctor = val
+                self.q_bound_expr = bound
         if self.queue is None:
             raise AnchorError('%s.__init__: no attribute initialised with collections.deque()' % BUFRX)
         if not any(a == FLAG for a, _v, _n in _stores(self.init)):
@@ -164,6 +185,7 @@ class BRModel:
             raise AnchorError('%s: the queue capacity is not passed to _BufferedReceiver()' % wsinit.qual)
         caps = [attr for attr, val, _n in _stores(self.init) if isinstance(val, ast.Name) and val.id == self.cap_param]
         self.cap = single(caps, 'attribute holding the capacity', self.init.qual)
+        self.q_bound = self._classify_bound(self.q_bound_expr)
         for f in self.methods:
             if f is not self.init and any(attr == self.cap for attr, _v, _n in _stores(f)):
                 raise UnknownIdiom('%s rewrites the capacity' % f.qual)
@@ -175,6 +197,21 @@ class BRModel:
                     self.raw_recv = attr
         if self.raw_recv is None:
             raise AnchorError('%s: the pump does not call a constructor-supplied receive callable' % self.producer.qual)
+
+    def _classify_bound(self, b) -> Optional[str]:
+        """None: the container is unbounded; 'cap': its maxlen is the configured capacity (or None for some
+        configurations) - never smaller than the bound the gate enforces; 'unknown': anything else."""
+        def is_cap(x):
+            return (isinstance(x, ast.Name) and x.id == self.cap_param) or _self_attr(x, self.cap)
+        if b is None or _is_none(b):
+            return None
+        if is_cap(b):
+            return 'cap'
+        if isinstance(b, ast.BoolOp) and isinstance(b.op, ast.Or) and len(b.values) == 2 and is_cap(b.values[0]) and _is_none(b.values[1]):
+            return 'cap'
+        if isinstance(b, ast.IfExp) and ((is_cap(b.body) and _is_none(b.orelse)) or (_is_none(b.body) and is_cap(b.orelse))):
+            return 'cap'
+        return 'unknown'
 
     def _is_future(self, f: Func, val) -> bool:
         v = strip_await(val)
@@ -547,6 +584,17 @@ class _PumpCtx:
             return atom
 
         self.atom_for = atom_for
+        # the flag starts False and only the pump raises it (what makes "flag set <=> the event in hand is the disconnect" sound)
+        for attr, val, node in _stores(br.init):
+            if attr == FLAG and not (isinstance(val, ast.Constant) and val.value is False):
+                raise UnknownIdiom('%s: %s' % (br.init.qual, short(node)))
+        wscls = p.cls(WS)
+        for g in list(br.methods) + [m for _n, m in sorted(wscls.methods.items())]:
+            if g is br.init or g is f:
+                continue
+            for x in walk_self(g.node):
+                if isinstance(x, ast.Attribute) and x.attr == FLAG and isinstance(x.ctx, (ast.Store, ast.Del)):
+                    raise UnknownIdiom('%s writes the %s flag' % (g.qual, FLAG))
         self.flag_sets = [n.id for n in cfg.live_nodes() if n.kind == 'stmt' and isinstance(n.ast, ast.Assign) and any(_self_attr(t, FLAG) for t in n.ast.targets)]
         for fs in self.flag_sets:
             v = cfg.node(fs).ast.value
@@ -606,18 +654,68 @@ def r3_fifo_bound(run):
     f = br.producer
     cfg = cfg_of(f, p)
     run.use_cfg(cfg)
-    ok_edges = br.edges_implying(cfg, br.full, False)
+    ctx = _pump_ctx(run)
+    if br.q_bound == 'unknown':
+        raise UnknownIdiom('%s: the receive queue is a deque whose maxlen (%s) is not the configured capacity; whether the container '
+                           'can be full where the gate admits an event is not modelled' % (br.init.qual, short(br.q_bound_expr)))
+    bounded = br.q_bound == 'cap'
+    run.extra['c18_queue_container'] = 'deque bounded by the capacity (maxlen)' if bounded else 'unbounded deque'
     appends = br.q_nodes(cfg, ('append', 'appendleft'))
+
+    def proof_edges(ctx_atom):
+        """Branch edges that cannot be taken while len(queue) >= capacity (given what `ctx_atom` knows about the event
+        in hand): taking one proves a free slot."""
+        def atom(e):
+            r = br.full(e)
+            if r is not None:
+                return {r}              # evaluated under the hypothesis "the queue is full"
+            return ctx_atom(e)
+        out = []
+        for t in cfg.live_nodes():
+            if t.kind != 'test':
+                continue
+            pv = possible(t.ast, atom)
+            for lab, want in (('T', True), ('F', False)):
+                if want not in pv:
+                    out.extend(flow.edges_out(cfg, t.id, lab))
+        return out
+
+    # (A) an ordinary message (the flag is down: only the pump raises it, and only for the disconnect event)
+    atom_a = ctx.atom_for('websocket.receive', False)
+    filt_a = feasible(cfg, atom_a)
+    ok_a = proof_edges(atom_a)
     starts = [cfg.entry] + [y for s in _susp(cfg) for (y, l) in cfg.succ[s] if l != 'exc']
     for a in appends:
-        path = flow.find_path(cfg, starts, [a], avoid_edges=ok_edges, edge_filter=flow.no_exc)
+        path = flow.find_path(cfg, starts, [a], avoid_edges=ok_a, edge_filter=lambda x, y, l: l != 'exc' and filt_a(x, y, l))
         run.check(path is None, '%s: the message is enqueued only right after a test showed len(queue) < capacity, with no suspension in between' % f.name,
                   f, cfg.node(a).ast, witness=flow.describe_path(cfg, path) if path else None,
-                  runtime_witness='with capacity k the framework holds k+1 (or more) queued messages')
+                  runtime_witness='with capacity k the framework holds k+1 (or more) queued messages' if not bounded else
+                                  'with capacity k and k messages buffered the next message evicts the oldest one from the bounded deque')
+    # (B) the disconnect marker (the flag is up from the statement that raises it).  It is not a message: appended to an
+    #     UNBOUNDED container without waiting for room it still follows every earlier message and nothing is lost.  A
+    #     container bounded by maxlen drops its oldest element on an append when full, so there the marker needs the
+    #     same proof of a free slot as a message.
+    atom_b = ctx.atom_for('websocket.disconnect', True)
+    filt_b = feasible(cfg, atom_b)
+    fb = lambda x, y, l: l != 'exc' and filt_b(x, y, l)  # noqa: E731
+    ok_b = proof_edges(atom_b)
+    after_flag = [y for fs in ctx.flag_sets for (y, l) in cfg.succ[fs] if l != 'exc']
+    region_b = flow.reachable(cfg, after_flag, avoid_nodes=ctx.recv_nodes, edge_filter=fb)
+    starts_b = after_flag + [y for s in _susp(cfg) if s in region_b for (y, l) in cfg.succ[s] if l != 'exc']
+    for a in appends:
+        if a not in region_b:
+            continue
+        path = flow.find_path(cfg, starts_b, [a], avoid_nodes=ctx.recv_nodes, avoid_edges=ok_b, edge_filter=fb)
+        run.check(path is None or not bounded,
+                  '%s: the disconnect marker is never appended to a full container that drops elements (the deque is unbounded, or the '
+                  'append follows a test showing len(queue) < capacity with no suspension in between)' % f.name,
+                  f, 'disconnect marker -> %s' % short(cfg.node(a).ast), where=f.loc(cfg.node(a).ast),
+                  witness=(['queue: %s' % short(br.q_ctor)] + flow.describe_path(cfg, path)) if path else None,
+                  runtime_witness='capacity 2, m1 and m2 buffered, the client disconnects, then the application receives: the marker was '
+                                  'appended to the full deque(maxlen=2), m1 was silently evicted and receive_*() returns m2 first')
     # the wait in the capacity loop re-tests after waking up: the await on the put waiter is inside a loop headed by the fullness test
     # (already implied: the append is reachable from the await only through an ok-edge)
     # disconnect handling
-    ctx = _pump_ctx(run)
     recv_nodes, flag_sets, atom_for = ctx.recv_nodes, ctx.flag_sets, ctx.atom_for
     for rn in recv_nodes:
         starts = [y for (y, l) in cfg.succ[rn] if l != 'exc']
@@ -632,7 +730,7 @@ def r3_fifo_bound(run):
             # a pump that ends without enqueuing the event can still be correct (the consumer also watches the task);
             # that design is not modelled -> broken check, not an accusation
             raise UnknownIdiom('%s: the disconnect event is not enqueued on the path %s' % (f.qual, ' / '.join(flow.describe_path(cfg, path)[-4:])))
-        run.ok('%s: the disconnect event is itself enqueued through the same (capacity-gated, FIFO) append as every message, '
+        run.ok('%s: the disconnect event is itself enqueued, at the same end of the queue as every message, '
                'so it is reported after the messages that preceded it' % f.name, f.loc(cfg.node(rn).ast), cfg.node(rn).ast)
         filt2 = feasible(cfg, atom_for('websocket.disconnect', True))
         for fs in flag_sets:
@@ -959,7 +1057,8 @@ def check(run):
     run.assume('set_result() on a pending future and deque operations do not raise')
     run.rule('R1', r1_windows, 'await-free check-then-register windows; mutate-then-notify before the next suspension', floor=8)
     run.rule('R2', r2_hygiene, 'waiter registrations cleared on every exit; notification clears the slot', floor=6)
-    run.rule('R3', r3_fifo_bound, 'FIFO polarity, capacity gate, disconnect through the same gate', floor=7)
+    run.rule('R3', r3_fifo_bound, 'FIFO polarity, capacity gate per event in hand (a maxlen-bounded deque never receives an append when full), '
+                                  'disconnect enqueued behind the messages and ending the pump', floor=8)
     run.rule('R4', r4_lifecycle, 'close->stop first, stop cancels/awaits/clears, start idempotent and skipped for 0, bypass for 0', floor=12)
     from . import c17 as _c17  # lazy: c17 imports this module (its R6 lives here)
     run.extra['c18_not_decided'] = [
